@@ -32,7 +32,7 @@ fn real_layer(ctx: &mut Ctx, level: usize) {
         rl.batch_lens(ctx, "batch:len-mismatch", &h, nv, np, npr);
     }
 
-    let reps = [1usize, 2, 6][level];
+    let reps = [1usize, 8, 3][level];
     for rep in 0..reps {
         for n in 1..=6usize {
             // all valid, mixed relations / keys / k
@@ -182,6 +182,30 @@ fn real_layer(ctx: &mut Ctx, level: usize) {
             }
         }
     }
+    for rep in 0..reps {
+        for rel in 0..nrel {
+            for n in [2usize, 3] {
+                let mut ms: Vec<Mem> = (0..n).map(|k| rl.honest(rel, k + rep)).collect();
+                let r = F::random(&mut rng);
+                rl.from_dual_of_batched(ctx, &ms, r);
+                ms[n - 1] = rl.invalid(&mut rng, &ms[n - 1], (rep + n) % 2);
+                rl.from_dual_of_batched(ctx, &ms, r);
+            }
+        }
+    }
+    for rep in 0..reps {
+        let base = rl.honest(rep % nrel, rep);
+        for n in [2usize, 3, 5] {
+            let fill: Vec<Mem> = (0..n).map(|k| rl.honest((k + rep) % nrel, k)).collect();
+            for i in 0..n {
+                for j in 0..n {
+                    if i != j && (level > 0 || (i + j) % 2 == 1) {
+                        rl.adaptive_accumulate(ctx, &fill, &base, i, j);
+                    }
+                }
+            }
+        }
+    }
     ctx.set_extra("real_batches", serde_json::json!(rl.stats_batches));
 }
 
@@ -189,13 +213,15 @@ fn main() {
     let mut ctx = Ctx::from_args("C15");
     let level = if ctx.quick() { 0 } else if ctx.thorough() { 1 } else { 2 };
     let mut sy = synth::Synth::new();
-    let m = [1usize, 4, 2][level];
+    let m = [1usize, 12, 3][level];
     sy.msm_eval(&mut ctx, 40 * m);
     sy.dual_seq(&mut ctx, 120 * m);
     sy.horner(&mut ctx, 2 * m);
     sy.gbatch(&mut ctx, 2 * m);
     sy.from_dual(&mut ctx, 64 * m);
+    sy.from_dual_sum(&mut ctx, 12 * m);
     sy.acc_ops(&mut ctx, 90 * m);
+    sy.adaptive_acc(&mut ctx, [1usize, 4, 4][level]);
     real_layer(&mut ctx, level);
     ctx.finish();
 }
